@@ -173,7 +173,7 @@ func (c *Conc) IsNil(v Val) bool {
 
 // value constructors
 func IntV(i int64, t types.Type) Val { return VT{term.I(i), t} }
-func BoolV(b bool) Val                { return VT{term.B(b), tyBool} }
+func BoolV(b bool) Val               { return VT{term.B(b), tyBool} }
 
 // Call runs function "pkg.Ref" on the given arguments (unwinding mode: loops must be concrete,
 // callees are inlined unless their contract is `abstract`). The state is updated in place.
@@ -222,4 +222,53 @@ func (c *Conc) SymString(name string, n int) (Val, []*T) {
 }
 
 // Errorf wraps engine failures for callers outside the package.
-func Errorf(format string, args ...interface{}) error { return &ExecError{fmt.Sprintf(format, args...)} }
+func Errorf(format string, args ...interface{}) error {
+	return &ExecError{fmt.Sprintf(format, args...)}
+}
+
+// ---- obligations raised by unwinding drivers
+
+func (c *Conc) Assume(t *T)   { c.X.assumeOnce(t) }
+func (c *Conc) PC() *T        { return c.St.PC }
+func (c *Conc) Term(v Val) *T { t, _ := scalar(v); return t }
+
+// Oblige adds the obligation `under ==> cond` with the given name.
+func (c *Conc) Oblige(kind, name string, under, cond *T) {
+	c.X.Obls = append(c.X.Obls, &Obligation{Name: name, Kind: kind, PC: term.And(c.St.PC, under), Cond: cond, NAssume: len(c.X.Assumptions)})
+}
+
+func (c *Conc) Try(f func()) error { return c.try(f) }
+
+// IfaceParts splits an interface value.
+func (c *Conc) IfaceParts(v Val) (tag, data *T) {
+	i := v.(VIface)
+	return i.Tag, i.Data
+}
+
+// PtrAs reinterprets the data word of an interface value as a pointer to named type "pkg.T".
+func (c *Conc) PtrAs(v Val, typ string) Val {
+	t := c.E.parseType(typ)
+	return VT{v.(VIface).Data, t}
+}
+
+func (c *Conc) TypeID(typ string) int64 { return c.X.P.typeID(c.E.parseType(typ)) }
+
+// StrParts returns length and byte array of a string value.
+func (c *Conc) StrParts(v Val) (n, arr *T) { s := v.(VStr); return s.Len, s.Arr }
+
+// MathArr returns the array term of a ghost field value.
+func (c *Conc) MathArr(v Val) *T { return v.(VMath).T }
+
+// Flat exposes the scalar components of a value (for equality obligations).
+func (c *Conc) Flat(v Val) []*T { return flatten(v) }
+
+// SymVal creates a symbolic value of the type of parameter i of function ref.
+func (c *Conc) SymParam(ref string, i int, name string) Val {
+	fn, err := c.X.P.FindFunc(ref)
+	if err != nil {
+		panic(&ExecError{err.Error()})
+	}
+	v := freshVal(name, fn.Params[i].Type())
+	c.X.assumeParam(c.St, v, fn.Params[i].Type())
+	return v
+}
